@@ -181,6 +181,22 @@ def children(cur):
     return None
 
 
+def descendants(cur):
+    """matches of a '**' step: the value itself, then everything below it in the order glom's
+    work-list visits it (children appended while the list is walked; a container reached twice is
+    listed twice but expanded once, so cyclic graphs terminate)"""
+    nxt = list(children(cur) or [])
+    sofar = set()
+    i = 0
+    while i < len(nxt):
+        item = nxt[i]
+        i += 1
+        if id(item) not in sofar:
+            sofar.add(id(item))
+            nxt.extend(children(item) or [])
+    return [cur] + nxt
+
+
 def walk(root, segs, absent_at=None):
     """follow wildcard-free segs; -> value, or raises Absent with .idx = failing segment index.
     absent_at=i forces segment i to count as absent (an access fault absorbed as "missing")"""
@@ -209,6 +225,9 @@ def expand(root, segs):
                 ch = children(c)
                 if ch:
                     nxt.extend(ch)
+        elif op == 'X':
+            for c in cur:
+                nxt.extend(descendants(c))
         else:
             for c in cur:
                 try:
